@@ -282,6 +282,11 @@ loop:
 	case Shutdown:
 		return errorx.ErrEngineShutdown
 	}
+	if !c.opened {
+		// The connection was closed inside OnTraffic (e.g. EventLoop.Close or a failed Write),
+		// its descriptor is gone and might already belong to someone else: stop here.
+		return nil
+	}
 	_, _ = c.inboundBuffer.Write(c.buffer)
 	c.buffer = c.buffer[:0]
 
